@@ -260,3 +260,21 @@ P("C10",
   units=[
    U("c10.download", "c10", "TestDownload", "download completes with correct files whenever an honest full source is reachable", Q(320, 8, 900), T(12000, 16), min_nontrivial_frac=0.5, shrinktime="40s"),
   ])
+
+P("C01",
+  level_text="Bounded random exploration at session level: a real leeching session downloads a generated layout from 1..3 honest scripted seeders (>= 2 provoke end-game "
+             "duplicates) among 1..3 adversaries (corrupt every block / one block, truncated blocks, wrong offsets, unrequested blocks, duplicates, choke cycles, disconnects) and an "
+             "optional honest / corrupting / truncating web seed, with generated disk-write delays (the harness owns when a write completes) and stop/start commands at generated times. "
+             "Invariants over the recorded history, all judged against the independent ground truth F: every storage write carries exactly F's bytes inside a data file; Stats().Pieces.Have never "
+             "exceeds the pieces completely and correctly on storage; every have / bitfield / have-all received by any scripted peer (incl. an observer leecher) names a piece that was already complete "
+             "on storage when the message arrived; on completion every piece is on storage; the resume bitfield read from the bbolt file after Close is a subset of the complete pieces; a peer that corrupted "
+             "whole pieces is disconnected and refused on reconnect; the child never crashes.",
+  level_note="Trusted: " + SESSION_TRUST + ". The in-memory storage double accepts writes after Close (a real file would fail), so 'write after stop' shows up as a crash or a wrong claim rather than an I/O error. "
+             "Scheduling inside the client is explored, not enumerated; the ban probe is skipped once the torrent completed (a seeder has no use for the ban).",
+  technique="property-based testing (rapid) at system level: fault/behaviour scripts + invariants over the recorded storage and wire history, judged against a reference model",
+  rule="layout x mode x honest/adversary mix x web seed kind x write-delay schedule x stop/start schedule; non-trivial = >= 1 storage write and >= 1 have/bitfield claim observed "
+       "(every case has >= 1 adversarial source); distinct = distinct case",
+  assumptions=["timestamps of storage writes and of message arrival at scripted peers are taken in the same process (monotonic clock); 2 ms tolerance"],
+  units=[
+   U("c01.integrity", "c01", "TestIntegrity", "only hash-verified data reaches storage / stats / have messages / resume data", Q(160, 8, 900), T(6000, 16), min_nontrivial_frac=0.5, shrinktime="40s"),
+  ])
